@@ -608,6 +608,18 @@ def embedded(value, container):
     return False
 
 
+def related(ans, value):
+    """the emitted value was derived from this oracle answer (it contains it, is a part of it, shares members with it,
+    or is the answer doubled: `unique + unique`)"""
+    if embedded(ans, value) or embedded(value, ans):
+        return True
+    if isinstance(ans, dict) and isinstance(value, dict):
+        return any(k in ans and py_same(ans[k], v) for k, v in value.items())
+    if isinstance(ans, list) and isinstance(value, list):
+        return value == ans + ans
+    return False
+
+
 def unsound_oracle_call(rec, o):
     """the recorded generate_from_schema call whose answer is (embedded in) the value although the request schema
     rejects that answer: coverage.generate_from_schema's own fast paths (enum / pattern / properties) ignore the
@@ -616,7 +628,7 @@ def unsound_oracle_call(rec, o):
         if c["kind"] != "schema" or "val" not in c["ans"] or not isinstance(c["req"], dict):
             continue
         ans = c["ans"]["val"]
-        if not embedded(ans, o["value"]) and not (isinstance(ans, list) and isinstance(o["value"], list) and o["value"] == ans + ans):
+        if not related(ans, o["value"]):
             continue
         if py_valid(c["req"], ans) is False:
             req = c["req"]
@@ -681,8 +693,17 @@ def shape_of_violation(schema, o, rec):
             return "negative-accepted-through-combinator"
         return f"unexplained:negative:{inner}"
     # ---- positive value rejected by the schema
+    if schema is False:
+        return "false-schema-treated-as-accepting"
     if contains_key(schema, COMBINATORS):
         return "positive-next-to-combinator-rejected"
+    # an object whose member is rejected by that member's own schema: the cause sits one level down
+    props = sdict.get("properties")
+    if isinstance(o["value"], dict) and isinstance(props, dict):
+        for name, v in o["value"].items():
+            if name in props and py_valid(props[name], v) is False:
+                sub_desc = o["desc"][len(f"object-valid:{name}:"):] if o["desc"].startswith(f"object-valid:{name}:") else "valid-object"
+                return shape_of_violation(props[name], {**o, "value": v, "desc": sub_desc}, rec)
     if inner in ("enum-value", "const-value"):
         return "enum-or-const-value-emitted-unchecked"
     if bounds_unsatisfiable(schema):
